@@ -88,6 +88,9 @@ def rand_actual(rng, depth, macros):
 def rand_use_bt(rng, m, depth, macros):
     name, nform, ndef, simple0 = m
     if nform == 0:
+        if rng.random() < 0.15:
+            # an argument list written behind a macro WITHOUT formals is ordinary text that survives (rescanned)
+            return pp.bt("use", name, a=[[[pp.bt("lit", rng.choice(WORDS))], [pp.bt("lit", rng.choice(WORDS)), pp.bt("lit", "+"), pp.bt("lit", "1")]][: rng.randint(1, 2)]])
         return pp.bt("use", name)
     k = rng.randint(max(0, nform - ndef), nform) if rng.random() < 0.9 else rng.randint(0, nform)
     acts = []
